@@ -215,9 +215,35 @@ def oracle_mgrx(case, impl):
     return None
 
 
+def oracle_epeq(case, impl):
+    """endpoint identity: identical endpoints are equal, endpoints that differ in kind, host, path or in the SET of
+    bootstrap addresses are not (the election installs a new endpoint / fires OnChange only when Equal says 'different')."""
+    import re
+    f = case.split(" ")
+    m = re.match(r"ab=([01]) ba=([01]) aa=([01])$", impl)
+    if not m:
+        return "unexpected harness output " + impl[:60]
+    ab, ba, aa = m.groups()
+    def norm(s):
+        g = s.split(";")
+        return (g[0], g[1], g[2] if len(g) > 2 else "", tuple(sorted(g[3].split(","))) if len(g) > 3 else ())
+    same = norm(f[1]) == norm(f[2])
+    if aa != "1":
+        return "an endpoint is not Equal to an identical copy of itself"
+    if ab != ba:
+        return "Equal is not symmetric on %s / %s" % (f[1][:60], f[2][:60])
+    if same and ab != "1":
+        return "identical endpoints compare different"
+    if not same and ab != "0":
+        return ("two different servers compare Equal (%s vs %s): an election that finds the healthy one of them keeps the other"
+                % (f[1][:80], f[2][:80]))
+    return None
+
+
 SPEC = dict(
     lean_module="NV.Props.C08",
-    areas=[dict(name="mgr", n_quick=4000, n_thorough=160000, shards_thorough=8,
+    areas=[dict(name="epeq", n_quick=20000, n_thorough=400000, shards_thorough=4, oracle=oracle_epeq),
+           dict(name="mgr", n_quick=4000, n_thorough=160000, shards_thorough=8,
                 oracle=lambda c, i: oracle_mgr(c, i, "c08"), nontrivial=nontrivial_mgr, timeout=1200),
            # overlapping elections (one held inside OnChange while another completes): the later election must win
            dict(name="mgrx", n_quick=3, n_thorough=20, shards_thorough=1, oracle=oracle_mgrx, timeout=300)],
